@@ -481,7 +481,9 @@ theorem readRequestBody_ok (w : Nat) (r : Registry) (sup : List Str) (h : Hdrs) 
     · exact ⟨_, hr⟩
     · exact ⟨_, hr⟩
     · cases hr
-    · exact ⟨_, hr⟩
+    · split at hr
+      · cases hr
+      · exact ⟨_, hr⟩
 
 theorem readResponseBody_ok (r : Registry) (sup : List Str) (h : Hdrs) (payload : Bytes) (b : Option Bytes)
     (hr : readResponseBody r sup h payload = .ok b) : ∃ body, decodeBody r sup h body = .ok b := by
